@@ -480,19 +480,10 @@ class InteractingNetworks(Network):
         :rtype: square numpy array [node_index, node_index]
         :return: link weights submatrix
         """
-        weights = np.zeros((len(node_list), len(node_list)))
-        subgraph = self.graph.subgraph(node_list)
-
-        if self.directed:
-            for e in subgraph.es:
-                weights[e.tuple] = e[attribute_name]
-        #  Symmetrize if subgraph is undirected
-        else:
-            for e in subgraph.es:
-                weights[e.tuple] = e[attribute_name]
-                weights[e.tuple[1], e.tuple[0]] = e[attribute_name]
-
-        return weights
+        #  Take the sub-block in the order given by node_list (an igraph
+        #  subgraph would silently reorder the nodes by index)
+        W = self.link_attribute(attribute_name)
+        return W[node_list, :][:, node_list]
 
     def cross_link_attribute(self, attribute_name, node_list1, node_list2):
         """
